@@ -261,12 +261,14 @@ def _script(setup, name):
         f"setup, name = {setup!r}, {name!r}\n"
         "loader = c28.make_loader(setup, base)\n"
         "print('search roots:', getattr(loader, 'searchpath', None) or loader._template_root)\n"
-        "sys.addaudithook(lambda e, a: print('   open', a[0]) if e == 'open' and str(a[0]).startswith(('/dev/shm', '~', 'C:', '.')) else None)\n"
+        "on = [False]; env = jinja2.Environment()\n"
+        "sys.addaudithook(lambda e, a: print('   open', a[0], '=', os.path.realpath(a[0])) if on[0] and e == 'open' else None)\n"
+        "on[0] = True\n"
         "try:\n"
-        "    src, fn, _ = loader.get_source(jinja2.Environment(), name)\n"
-        "    print('get_source(%r) ->' % name, repr(src), 'from', os.path.realpath(fn))\n"
+        "    src, fn, _ = loader.get_source(env, name)\n"
+        "    on[0] = False; print('get_source(%r) ->' % name, repr(src), 'from', os.path.realpath(fn))\n"
         "except Exception as e:\n"
-        "    print('get_source(%r) raised' % name, type(e).__name__, e)\n"
+        "    on[0] = False; print('get_source(%r) raised' % name, type(e).__name__, e)\n"
         "print('reference:', c28.ref_resolve(name, setup, c28.tree_spec()))\n"
         "import shutil; os.chdir('/'); shutil.rmtree(base)\n"
     )
